@@ -477,7 +477,7 @@ func fetchJ(numSet imap.NumSet, o *imap.FetchOptions) M {
 	}
 	m := M{"c": "FETCH", "set": numSetJ(numSet),
 		"items": M{"envelope": o.Envelope, "flags": o.Flags, "internaldate": o.InternalDate, "rfc822size": o.RFC822Size, "uid": o.UID},
-		"bs": bs, "secs": secs, "bin": bin, "binsz": binsz}
+		"bs":    bs, "secs": secs, "bin": bin, "binsz": binsz}
 	if o.ModSeq || o.ChangedSince != 0 {
 		m["extra"] = true // something the caller never asked for
 	}
@@ -600,7 +600,10 @@ func (s *stub) Create(mailbox string, options *imap.CreateOptions) error {
 	s.call(M{"c": "CREATE", "mbox": strJ(mailbox), "use": use})
 	return nil
 }
-func (s *stub) Delete(mailbox string) error { s.call(M{"c": "DELETE", "mbox": strJ(mailbox)}); return nil }
+func (s *stub) Delete(mailbox string) error {
+	s.call(M{"c": "DELETE", "mbox": strJ(mailbox)})
+	return nil
+}
 func (s *stub) Rename(mailbox, newName string) error {
 	s.call(M{"c": "RENAME", "mbox": strJ(mailbox), "to": strJ(newName)})
 	return nil
